@@ -442,9 +442,12 @@ class DoomedGen:
         if k < 0.7:
             op['heads'] = r.choice((0, 257, 1000))
             return _finish(op, 'hybrid:geometry-heads-out-of-range', True, 'hybrid-parameters')
-        op['mac'] = True
-        op['efi'] = False
-        return _finish(op, 'hybrid:mac-without-efi', True, 'hybrid-parameters')
+        if k < 0.85 or any(e.get('efi') or e.get('platform') == 0xef for e in m.eltorito['entries']):
+            op['mac'] = True
+            op['efi'] = False
+            return _finish(op, 'hybrid:mac-without-efi', True, 'hybrid-parameters')
+        op['efi'] = True
+        return _finish(op, 'hybrid:efi-without-efi-boot-entry', True, 'hybrid-parameters')
 
     def state(self):
         return _finish({'op': 'new_again'}, 'state:new-on-initialised-object', False, 'object-state')
